@@ -52,7 +52,7 @@ func (e *Engine) eval(f *frame, v ssa.Value, guard T) Value {
 				if len(b.e) == 0 {
 					panic(goPanic{"index out of range (empty array)"})
 				}
-				inb := binop("<", idx, bv(uint64(len(b.e)), idx.w), false)
+				inb := inBounds(idx, len(b.e))
 				e.purePanicIf(tand(guard, tnot(inb)), "index out of range "+x.String())
 				val := b.e[len(b.e)-1]
 				for i := len(b.e) - 2; i >= 0; i-- {
@@ -373,7 +373,7 @@ func (e *Engine) indexAddr(f *frame, x *ssa.IndexAddr, guard T) Value {
 			panic(engineError{"symbolic index into huge array in pure code"})
 		}
 		m := MPtr{}
-		inb := binop("<", idx, bv(uint64(n), idx.w), false)
+		inb := inBounds(idx, n)
 		e.purePanicIf(tand(guard, tnot(inb)), "index out of range "+x.String())
 		for i := 0; i < n; i++ {
 			m.cands = append(m.cands, at(i))
@@ -383,6 +383,16 @@ func (e *Engine) indexAddr(f *frame, x *ssa.IndexAddr, guard T) Value {
 			return Ptr{}
 		}
 		return m
+	}
+	if idx.isC && (e.inPure() || !guard.isTrue()) {
+		v := int64(idx.c)
+		if signed {
+			v = sext64(idx.c, idx.w)
+		}
+		if v < 0 || v >= int64(n) {
+			e.purePanicIf(guard, "index out of range "+x.String())
+			return Ptr{}
+		}
 	}
 	i := e.concretizeIndex(idx, signed, n, x.String())
 	return at(i)
